@@ -187,7 +187,7 @@ def is_ast(x):
 # Scenario generation: sources + literal op list
 ###############################################################################
 
-OPS_ANY = ('str', 'repr', 'hash', 'eq', 'iterate', 'children', 'subtree', 'but_same', 'but_child', 'but_scalar', 'set_metadata', 'scribble_on_results')
+OPS_ANY = ('str', 'repr', 'hash', 'eq', 'iterate', 'children', 'subtree', 'but_same', 'but_child', 'but_scalar', 'but_metadata', 'set_metadata', 'scribble_on_results')
 OPS_EXPR = ('external_references', 'contains_reference', 'contains_self_reference', 'contains_definition',
             'is_fully_typed', 'cast', 'replace_self_reference', 'replace_var_reference', 'type_check_expr',
             'simplify', 'split_and', 'refactor_reference', 'replace_this_with_var', 'replace_var_with_this',
@@ -390,6 +390,11 @@ def do_op(name, h, h2, op, pool, schema, msg_types):
         else:
             val = donor
         return obj.but(**{fname: val}), ('changed', fname, val)
+    if name == 'but_metadata':
+        # the keyword the method itself looks for: the dict of another tree, of the receiver, or a fresh one
+        k = op['sel'] % 3
+        md = h2.obj.metadata if k == 0 else obj.metadata if k == 1 else {'origin': op['val']}
+        return obj.but(metadata=md), ('metadata', md)
     if name == 'but_scalar':
         cands = scalar_candidates(obj)
         if not cands:
@@ -744,6 +749,14 @@ def execute(sc, stats=None, upto=None, trace=None):
                 if x.hash is not None and hash(x.twin) != x.hash:
                     return _viol('hash', 'after %s: hash differs from the untouched twin' % name, op_desc, sc, step)
         # --- invariant 3: but()
+        if failed is None and name == 'but_metadata':
+            _tag, md = note
+            if result is not h.obj:
+                if result.metadata is md or any(result.metadata is x.obj.metadata for x in pool):
+                    return _viol('but-metadata', 'but(metadata=<dict of an existing tree>) made the copy share that dict', op_desc, sc, step)
+                if result.metadata != md:
+                    return _viol('but-metadata', 'but(metadata=...) result does not carry the given metadata', op_desc, sc, step)
+                count('but_metadata_checked')
         if failed is None and name in ('but_same', 'but_child', 'but_scalar'):
             recv = h.obj
             if note == 'same':
